@@ -98,7 +98,12 @@ def run(ctx):
         if F < 2 or not plaquette_graph_connected(l):
             ctx.count("precondition_excluded_disconnected_plaquette_graph"); continue
         ctx.count("lattices")
-        for kind in ("plaquette", "vertex"):
+        lat_fp = core.lattice_fingerprint(l)
+        for kind in ("plaquette", "vertex", "@fingerprint"):
+            if kind == "@fingerprint":
+                if core.lattice_fingerprint(l) != lat_fp:
+                    ctx.impl_violation(f"{name}: the path finder modified the lattice it was given (positions / edges / crossings / plaquette data)", dict(case=name, lattice=zoo.lat_to_json(l)))
+                continue
             if kind == "plaquette":
                 n = F
                 # independent adjacency from the edge table (for the oracle); koala's own provider gives the neighbour order the search uses (for the model)
